@@ -173,19 +173,107 @@ def related_cues(rng, first, unit):
     return res or [(first[0][0], first[0][0] + unit)]
 
 
+STYLES = [{"italics": True}, {"bold": True}, {"underline": True}, {"color": "yellow"}, {"font-family": "serif"},
+          {"font-size": "12px"}, {"italics": True, "color": "red"}]
+BLANKS = [" ", "\xa0", "  ", "\xa0 "]
+
+
+def lines_spec(lines):
+    spec = []
+    for k, ln in enumerate(lines):
+        if k:
+            spec.append(["b"])
+        spec.append(["t", ln])
+    return spec
+
+
+def gen_nodes(rng, no_pipe, counter):
+    """node list of one caption: visible text lines (gen_text) separated by breaks; between two lines possibly EMPTY
+    lines (consecutive breaks) or lines holding only a blank / U+00A0 text node; balanced STYLE node pairs (rendering:
+    italics / bold / underline, and non-rendering: colour / font) at arbitrary positions, also between two breaks"""
+    lines = gen_text(rng, no_pipe, counter)
+    spec = []
+    for k, ln in enumerate(lines):
+        if k:
+            spec.append(["b"])
+            while rng.random() < 0.3:
+                if rng.random() < 0.5:
+                    spec.append(["t", rng.choice(BLANKS)])
+                    counter["blank_only_text_nodes"] = counter.get("blank_only_text_nodes", 0) + 1
+                else:
+                    counter["empty_lines_inside_a_caption"] = counter.get("empty_lines_inside_a_caption", 0) + 1
+                spec.append(["b"])
+        spec.append(["t", ln])
+    for _ in range(rng.choice([0, 0, 0, 1, 1, 2])):
+        i = rng.randrange(0, len(spec) + 1)
+        j = rng.randrange(i, len(spec) + 1)
+        # keep pairs properly nested / sequential: do not cut through an existing pair
+        depth = 0
+        ok = True
+        for x in spec[i:j]:
+            if x[0] == "s":
+                depth += 1 if x[1] else -1
+                if depth < 0:
+                    ok = False
+        if not ok or depth != 0:
+            continue
+        st = rng.choice(STYLES)
+        spec = spec[:i] + [["s", True, st]] + spec[i:j] + [["s", False, st]] + spec[j:]
+        counter["style_node_pairs"] = counter.get("style_node_pairs", 0) + 1
+        if not any(k in st for k in ("italics", "bold", "underline")):
+            counter["style_node_pairs_rendering_no_tag"] = counter.get("style_node_pairs_rendering_no_tag", 0) + 1
+    return spec
+
+
+def plain_lines(spec):
+    """the text lines if the caption is just lines separated by single breaks, else None"""
+    out = []
+    expect_text = True
+    for x in spec:
+        if expect_text and x[0] == "t" and norm_line(x[1]):
+            out.append(x[1])
+        elif not expect_text and x[0] == "b":
+            pass
+        else:
+            return None
+        expect_text = not expect_text
+    return out if not expect_text else None
+
+
 def build(langs):
+    """langs: per language (cues, per cue either a list of text lines or a node spec)"""
     d = {}
     for li, (cues, texts) in enumerate(langs):
         caps = []
-        for (s, e), lines in zip(cues, texts):
+        for (s, e), spec in zip(cues, texts):
+            if spec and isinstance(spec[0], str):
+                spec = lines_spec(spec)
             nodes = []
-            for k, ln in enumerate(lines):
-                if k:
+            for x in spec:
+                if x[0] == "t":
+                    nodes.append(CaptionNode.create_text(x[1]))
+                elif x[0] == "b":
                     nodes.append(CaptionNode.create_break())
-                nodes.append(CaptionNode.create_text(ln))
+                else:
+                    nodes.append(CaptionNode.create_style(bool(x[1]), dict(x[2])))
             caps.append(Caption(s, e, nodes))
         d[LANGS[li]] = CaptionList(caps)
     return CaptionSet(d)
+
+
+def spec_lines(spec):
+    """visible text of a node spec: per line the text contents, whitespace-normalised, empty lines dropped"""
+    if spec and isinstance(spec[0], str):
+        spec = lines_spec(spec)
+    lines, cur = [], []
+    for x in spec:
+        if x[0] == "b":
+            lines.append("".join(cur))
+            cur = []
+        elif x[0] == "t":
+            cur.append(x[1])
+    lines.append("".join(cur))
+    return [l for l in (norm_line(l) for l in lines) if l]
 
 
 def run_chain(chain, cs):
@@ -217,6 +305,10 @@ def run(ctx):
             jobs.append([a, b])
     for _ in range(ctx.n(700, 10000)):
         jobs.append([rng.randrange(5) for _ in range(rng.randint(3, 6))])
+    for x in range(5):                # order-sensitive 3-hop chains around the WebVTT / SRT pair
+        for tail in ([1, 0], [0, 1]):
+            for _ in range(ctx.n(8, 120)):
+                jobs.append([x] + tail)
     n_multi = ctx.n(160, 3000)       # chains that stay within DFXP / SAMI, always with 2-3 interleaved languages
     for _ in range(n_multi):
         jobs.append([rng.choice([2, 3]) for _ in range(rng.randint(1, 5))])
@@ -231,7 +323,7 @@ def run(ctx):
             cues = gen_cues(rng, unit, 3 not in chain)
             if k and rng.random() < 0.6:
                 cues = related_cues(rng, langs[0][0], unit)
-            langs.append((cues, [gen_text(rng, 4 in chain, dist) for _ in cues]))
+            langs.append((cues, [gen_nodes(rng, 4 in chain, dist) for _ in cues]))
             if any(e - s0 < unit for (s0, e) in cues):
                 dist["sets_with_a_cue_shorter_than_the_unit"] = dist.get("sets_with_a_cue_shorter_than_the_unit", 0) + 1
             if any(s0 // unit == e // unit for (s0, e) in cues):
@@ -292,7 +384,9 @@ def run(ctx):
     dist.setdefault("hops_with_other_precision_than_model", 0)
     stream_short(ctx, res)
     # the string-level MicroDVD writer model (request 803) against the real writer, on the generated single-language sets
-    mw = [(langs[0][0], langs[0][1]) for (chain, langs, li, cues, texts, t1, t2) in work if len(langs) == 1 and 4 in chain][:400]
+    mw = [(langs[0][0], [plain_lines(sp) for sp in langs[0][1]]) for (chain, langs, li, cues, texts, t1, t2) in work
+          if len(langs) == 1 and 4 in chain and all(plain_lines(sp) is not None for sp in langs[0][1])
+          and all(l == l.strip() for sp in langs[0][1] for l in plain_lines(sp))][:400]
     docs = oracle_batch([(803, [[c[0], c[1], tx] for c, tx in zip(cu, txs)]) for (cu, txs) in mw]) if mw else []
     ndiff = 0
     for (cu, txs), d in zip(mw, docs):
@@ -304,16 +398,19 @@ def run(ctx):
     dist["chain_length_histogram"] = lens
     dist["pairs"] = len(pairs)
     dist["sets_per_pair"] = per_pair
-    res["rule"] = ("all 25 ordered format pairs x %d caption sets and sampled chains of length 3-6, two passes; sets of "
-                   "1-5 sorted non-overlapping cues (1-3 languages when the chain stays within DFXP/SAMI); with SAMI on "
-                   "the chain every cue is at least one unit long (1 ms, 40 ms with MicroDVD), otherwise cues may be "
-                   "shorter than the unit or lie inside one unit (e.g. {100}{100}: kept as a zero-length cue) while "
-                   "neighbours start in different units and no cue lies inside MicroDVD frame 0; starts on ms / frame "
-                   "boundaries +-1 (e.g. 8039999, 8040000), below 23 h; texts of 1-3 lines mixing plain words with "
-                   "adversarial atoms: literal entity spellings (&lt; &gt; &amp; &nbsp; &#60; &amp;lt;), bare & < >, "
-                   "quotes, '-->', markup-looking strings (<i>, </p>, <br/>, <v Bob>), digits-only lines (42, 50, 25), "
-                   "braces, timing-line look-alikes, leading/trailing/multiple blanks, non-ASCII; '|' is replaced "
-                   "(counted) exactly when the chain has a MicroDVD hop. Non-trivial: every distinct (chain, cue list) "
+    res["rule"] = ("all 25 ordered format pairs x %d caption sets, the ten 3-hop chains X->vtt->srt / X->srt->vtt, sampled "
+                   "chains of length 3-6 and chains within DFXP/SAMI with 2-3 interleaved languages, two passes; sets of "
+                   "1-5 sorted non-overlapping cues; with SAMI on the chain every cue is at least one unit long (1 ms, "
+                   "40 ms with MicroDVD), otherwise cues may be shorter than the unit or lie inside one unit (e.g. "
+                   "{100}{100}: kept as a zero-length cue) while neighbours start in different units and no cue lies "
+                   "inside MicroDVD frame 0; starts on ms / frame boundaries +-1, below 23 h. Captions are node lists: "
+                   "1-3 visible text lines mixing plain words with adversarial atoms (literal entity spellings &lt; &gt; "
+                   "&amp; &nbsp; &#60; &amp;lt;, bare & < >, quotes, '-->', markup look-alikes, digits-only lines, braces, "
+                   "timing-line look-alikes, leading/trailing/multiple blanks, non-ASCII); between two lines possibly "
+                   "EMPTY lines (consecutive breaks) or lines holding only a blank / U+00A0 text node; balanced STYLE node "
+                   "pairs, rendering (i/b/u) and non-rendering (colour, font), at arbitrary positions incl. between two "
+                   "breaks; '|' is replaced (counted) exactly when the chain has a MicroDVD hop. Compared: visible text "
+                   "per line, whitespace-normalised, empty lines dropped. Non-trivial: every distinct (chain, cue list) "
                    "in the domain." % per_pair)
     res["clauses"] = {
         "theorem": ["projection algebra: pi_F idempotent, two hops = coarser resolution (order irrelevant), every chain = "
@@ -405,7 +502,7 @@ def final_times(trace, li, n):
 
 
 def text_mismatch(trace, li, texts):
-    texts = [[norm_line(l) for l in lines] for lines in texts]
+    texts = [spec_lines(sp) for sp in texts]
     for k, o in enumerate(trace):
         if isinstance(o, Err):
             return (k, "an exception")
